@@ -208,6 +208,31 @@ let handle cmd args =
       (match crash_violation tr (nat_of_int (int_of_string ver)) with
        | None -> "OK"
        | Some (j, k) -> "BAD " ^ string_of_int (int_of_nat j) ^ " " ^ string_of_int (int_of_nat k))
+  | "conc", kinds ->
+      (* the finished states two or three parties can reach: where the message is and what each party reports *)
+      let kind_of = function
+        | "move" -> KAct (AMove false) | "movex" -> KAct (AMoveX false) | "write" -> KAct AWrite | "discard" -> KAct ADiscard
+        | "extrename" -> KExtRename | "extdelete" -> KExtDelete | s -> failwith ("kind " ^ s) in
+      let ks = List.map kind_of kinds in
+      let n = List.length ks in
+      let states = List.filter (fun s -> finished ks s) (states_of (reach_table ks)) in
+      let summary s =
+        let w = s.g_world in
+        let where = ref [] in
+        let look p nm tag = (match gget w (slot (nat_of_int p) nm) with
+          | Some (Complete _) -> where := (tag ^ (if nm = Src then "" else string_of_int p)) :: !where
+          | Some _ -> where := ("junk" ^ tag ^ string_of_int p) :: !where
+          | None -> ()) in
+        look 0 Src "S";
+        for p = 0 to n - 1 do look p Dst "D"; look p New "N" done;
+        let sts = List.map2 (fun k h -> match status_of k h with Some st -> string_of_int (int_of_nat st) | None -> "?") ks s.g_hist in
+        (if !where = [] then "-" else String.concat "+" (List.rev !where)) ^ ":" ^ String.concat "," sts in
+      String.concat " " (List.sort_uniq compare (List.map summary states))
+  | "tp", [str] ->
+      (* time_parse of a Date value; zone names: only GMT / UT / UTC are given an offset (0) *)
+      (match time_parse (fun n -> if is_utc_name n then Some Z0 else None) (cview (unhex str)) with
+       | Some t -> "OK " ^ string_of_int (int_of_z t)
+       | None -> "ERR")
   | "confpats", [file; home] ->
       (* the patterns parse_config hands to the regcomp oracle when every one of them is accepted *)
       let pats = ref [] in
